@@ -277,10 +277,24 @@ LAMBDAS = (1e-9, 1e-6, 1e3)   # metres per lattice unit for the deterministic re
 MAX_CALL_NODES = 150_000   # points per getB / getH call: bounds the memory of a worker (~0.3 GB incl. magpylib temporaries)
 
 
+def _call_cap(obj):
+    """points per single field call, by the most expensive class in the scene"""
+    names = {type(o).__name__ for o in (obj.sources_all if hasattr(obj, "sources_all") else [obj])}
+    if names & {"CylinderSegment", "TriangularMesh", "Tetrahedron"}:
+        return 8_000
+    if names & {"Cylinder", "Triangle", "Polyline"}:
+        return 30_000
+    return 100_000
+
+
 def _eval_batch(obj, kap, law, geo, res):
     """one getB / getH call for all nodes in geo; res[(tid, order)] = (integral, gross, finite, nodes)"""
     P = np.concatenate([kap.pos(frame_to_lattice(ch, X)) for _, _, ch, X, _ in geo])
-    F = np.asarray(obj.getB(P) if law == "flux" else obj.getH(P), dtype=float).reshape(-1, 3)
+    # the field call itself is cut into slices: magpylib's temporaries are 10^2..10^3 floats per point for the cylinder-segment and
+    # triangle-based classes (a worker with 1.5e5 segment points was seen at 5 GB and killed by the kernel when several checks ran side by side)
+    fn = obj.getB if law == "flux" else obj.getH
+    step = _call_cap(obj)
+    F = np.concatenate([np.asarray(fn(P[i:i + step]), dtype=float).reshape(-1, 3) for i in range(0, len(P), step)])
     F = kap.unvec(F)  # back to lattice orientation
     scale = kap.lam if law == "circ" else 1.0  # amperes resp. lattice units (lam^2 drops out of flux/gross)
     o = 0
